@@ -28,6 +28,8 @@ pub fn run(args: &[String]) {
                 let want_seqs = case.hist.iter().any(|t| t == "DEF" || t == "SEQS");
                 if !want_seqs {
                     println!("MAPPED {}", s.join(" "));
+                    // which input devices the Linux back end will grab when the configuration does not say
+                    println!("DETECT {:?}", cfg.options.linux_opts.linux_device_detect_mode);
                 }
                 let mut seqs: Vec<String> = cfg
                     .sequences
